@@ -94,7 +94,9 @@ const (
 //          (secrets are numbered in order of creation; -2: "current secret of client cid");
 //          HMACs over the same challenge with keys nobody proved anything with (garbage for the model):
 //          -3: keyed by "", -4: keyed by the stored SecretKeyEncrypted string of client cid, -5: keyed by the
-//          decimal client id, -6: keyed by the deprecated plaintext SecretKey field of client cid
+//          decimal client id, -6: keyed by the deprecated plaintext SecretKey field of client cid;
+//          -10-shape: a near miss of the correct response of client cid: shape 1..5 = its first 1, 2, 8, 32, 63 characters,
+//          6 = correct+"0", 7 = correct twice, 8 = upper case, 9..24 = the one-character guess '0'..'f', 25 = without its first character
 //   chal   0: the last challenge this connection received; c>0: challenge number c (numbered in order of issue);
 //          a challenge that does not exist (yet) makes the response garbage
 //   tunnel 1: connection_type "tunnel", 0: "control", 2: connection_type omitted
@@ -480,7 +482,31 @@ func (w *world) msgStep(step int, op []int, o *stepObs, out *caseOut) {
 			if cn == 0 && c != nil {
 				cn = c.recv
 			}
-			if key <= -3 && cn >= 1 && cn < len(w.chals) {
+			if key <= -10 && cn >= 1 && cn < len(w.chals) && cidIdx >= 1 && cidIdx < len(w.clients) && w.secrets[w.clients[cidIdx].secret] != "" {
+				// near misses of the CORRECT response of client cid over that challenge (all garbage for the model: only the exact
+				// string authenticates): proper prefixes, the correct response plus a suffix, another letter case, one-character guesses
+				good := hm(w.secrets[w.clients[cidIdx].secret], w.chals[cn])
+				shape := -10 - key
+				switch {
+				case shape >= 1 && shape <= 5:
+					respStr = good[:[]int{0, 1, 2, 8, 32, 63}[shape]]
+				case shape == 6:
+					respStr = good + "0"
+				case shape == 7:
+					respStr = good + good
+				case shape == 8:
+					respStr = strings.ToUpper(good)
+				case shape >= 9 && shape <= 24:
+					respStr = string("0123456789abcdef"[shape-9])
+				default:
+					respStr = good[1:]
+				}
+				if respStr == good || respStr == "" {
+					respStr = "00garbage00"
+				}
+			} else if key <= -10 {
+				respStr = "00garbage00"
+			} else if key <= -3 && cn >= 1 && cn < len(w.chals) {
 				ks := ""
 				if key != -3 && cidIdx >= 1 && cidIdx < len(w.clients) {
 					switch key {
